@@ -163,6 +163,7 @@ impl Compactor {
                 self.storage.block_cache.clone(),
                 rowset_id,
                 self.storage.options.io_backend.clone(),
+                self.storage.options.checksum_type,
             )
             .await?;
 
